@@ -414,9 +414,9 @@ Definition sepc (k : nat) : str :=
 (* writing a part at the end of the string: start_part, append, save_part             *)
 (* ---------------------------------------------------------------------------------- *)
 
-(* the object's last written part is m-1 >= HOST; a part new_pt >= m is started, text appended, saved *)
+(* the object's last written part is m-1 >= HOST_START; a part new_pt >= m is started, text appended, saved *)
 Lemma start_append_save ps m f c new_pt v s0 :
-  PW ps m -> (6 <= m)%nat -> (m <= new_pt <= 10)%nat ->
+  PW ps m -> (5 <= m)%nat -> (m <= new_pt <= 10)%nat ->
   s_r s0 = conc ps m f c -> s_last s0 = (m - 1)%nat ->
   let s1 := ser_save_part (do_append (ser_start_part s0 new_pt) v) in
   s_r s1 = conc (setp ps new_pt (sepc new_pt ++ v)) (S new_pt) f c /\ s_last s1 = new_pt.
@@ -708,7 +708,7 @@ Proof.
     cbn [N.eqb negb].
     rewrite (find_last_part_conc ps n f c HPW k ltac:(lia)).
     match goal with |- context [ser_start_part ?s0 k] =>
-      pose proof (start_append_save ps n f c k v s0 HPW Hn6 ltac:(lia) eq_refl eq_refl) as Hsas end.
+      pose proof (start_append_save ps n f c k v s0 HPW ltac:(lia) ltac:(lia) eq_refl eq_refl) as Hsas end.
     cbv zeta in Hsas.
     unfold v_save_part, set_save_part.
     match goal with |- context [s_use (do_append ?x v)] =>
@@ -1146,3 +1146,148 @@ Proof. induction l as [|x l IH]; intro a; [reflexivity|]. cbn [Impl.TraceProto.f
 
 Lemma norm_tail_m_eq r : Impl.TraceProto.norm_tail_m r = norm_tail r.
 Proof. unfold Impl.TraceProto.norm_tail_m, norm_tail, w_ends. rewrite fix_tail_m_eq. reflexivity. Qed.
+
+(* ---------------------------------------------------------------------------------- *)
+(* protocol setter: start_scheme, the new scheme, save_scheme                         *)
+(* ---------------------------------------------------------------------------------- *)
+
+Lemma upd_same l : forall k v, nth k l 0 = v -> (k < length l)%nat -> upd l k v = l.
+Proof.
+  induction l as [|x l IH]; intros [|k] v Hv Hk; cbn [length] in Hk; try lia; cbn [upd nth] in *.
+  - subst. reflexivity.
+  - rewrite IH; [reflexivity|exact Hv|lia].
+Qed.
+
+Theorem setter_protocol ps n f c file sch :
+  PW ps n -> sch <> [] ->
+  let s1 := run true (init_sst (conc ps n f c) file) [OStartScheme; OAppend sch; OSaveScheme] in
+  s_r s1 = conc (setp ps 0 sch) n f c /\ s_file s1 = is_file_str sch.
+Proof.
+  intros HPW Hsch.
+  assert (Hlen : length ps = 11%nat) by (destruct HPW; assumption).
+  assert (Hn : (1 <= n <= 11)%nat) by (destruct HPW; assumption).
+  cbn [run fold_left step]. unfold v_start_scheme, v_save_scheme, do_append.
+  cbv beta iota zeta delta [w_r w_last w_strp w_pse w_use w_curr w_tgt w_file init_sst
+     s_r s_file s_last s_use s_strp s_pse s_curr s_tgt]. cbn [app].
+  unfold replace_part1. change P_SCHEME with 0%nat.
+  destruct (replace_part_conc ps n f c 0 0 sch 0 HPW ltac:(lia) ltac:(lia) ltac:(intro; lia)) as [Hrp _].
+  rewrite Hrp. fold (setp ps 0 sch).
+  assert (Hl2 : length (setp ps 0 sch) = 11%nat) by (unfold setp; rewrite splice_length; lia).
+  assert (He0 : nth 0 (ends_of (setp ps 0 sch) n) 0 = len sch).
+  { rewrite nth_ends_of by lia. destruct (Nat.ltb_spec 0 n); [|lia].
+    rewrite pre_S by lia. rewrite pre_0, nth_setp by lia. cbn [Nat.eqb]. lia. }
+  assert (Hset : set_e (conc (setp ps 0 sch) n f c) 0 (len sch) = conc (setp ps 0 sch) n f c).
+  { unfold set_e, w_ends, conc. cbn [r_norm r_ends r_flags r_segs]. f_equal.
+    apply upd_same; [exact He0|rewrite ends_of_length; lia]. }
+  rewrite Hset. split; [reflexivity|].
+  f_equal. unfold part_view, conc, E. cbn [r_norm r_ends]. rewrite He0.
+  unfold substr. cbn [N.to_nat skipn]. unfold setp. rewrite splice_concat. cbn [firstn concat app].
+  rewrite to_nat_len. apply firstn_len_app.
+Qed.
+
+(* ---------------------------------------------------------------------------------- *)
+(* host setter on a URL whose host is not null: hostStart, the serialized host, hostDone *)
+(* ---------------------------------------------------------------------------------- *)
+
+Definition host_flags (f ht : N) : N := N.lor (N.lor (N.ldiff f (7 * 8192)) 32) (ht * 8192).
+
+Lemma part_len_sep ps n f c : PW ps n -> (2 <= n)%nat -> part_len (conc ps n f c) 1 = len (nth 1 ps []).
+Proof.
+  intros HPW Hn. assert (Hlen : length ps = 11%nat) by (destruct HPW; assumption).
+  assert (Hn11 : (n <= 11)%nat) by (destruct HPW; lia).
+  unfold part_len. cbn [pred]. rewrite !en_conc by lia.
+  destruct (Nat.ltb_spec 1 n); [|lia]. destruct (Nat.ltb_spec 0 n); [|lia].
+  rewrite (pre_S 1) by lia. lia.
+Qed.
+
+Theorem setter_host_nonnull ps n f c file h ht :
+  PW ps n -> (6 <= n)%nat -> len (nth 1 ps []) = 3 -> nth P_PATH_PREFIX ps [] = [] ->
+  norm_tail (s_r (run true (init_sst (conc ps n f c) file) [OHostStart; OAppend h; OHostDone ht])) =
+  conc (setp ps P_HOST h) 11 (host_flags f ht) c.
+Proof.
+  intros HPW Hn6 Hsep Hpp.
+  assert (Hlen : length ps = 11%nat) by (destruct HPW; assumption).
+  assert (Hnl : (n <= length ps)%nat) by (destruct HPW; lia).
+  assert (Hen : en (conc ps n f c) P_HOST = pre 6 ps).
+  { rewrite en_conc by exact Hnl. unfold P_HOST. destruct (Nat.ltb_spec 5 n); [reflexivity|lia]. }
+  pose proof (pre_S_pos ps n 5 HPW) as Hpos.
+  cbn [run fold_left step]. unfold v_start_part, set_start_part.
+  cbn [init_sst w_curr s_r]. rewrite Hen.
+  destruct (N.eqb_spec (pre 6 ps) 0) as [E|_]; [lia|]. cbn [negb].
+  replace (len (r_norm (conc ps n f c))) with (len (concat ps)) by reflexivity.
+  unfold P_HOST, P_FRAGMENT. cbn [Nat.ltb Nat.leb andb].
+  destruct (tail_dichotomy ps 5) as [Htl|Hfollow].
+  - (* the host is the last text: in place *)
+    rewrite (pre_tail ps 6 6) by (auto; intros; apply Htl; lia). rewrite N.ltb_irrefl.
+    pose proof (truncate_conc ps n f c 5 HPW ltac:(lia)) as Htr. cbv zeta in Htr.
+    cbn [s_r w_curr init_sst pred] in *. rewrite Htr.
+    pose proof (cut_PW ps n 5 HPW ltac:(lia)) as HPWc.
+    match goal with |- context [ser_start_part ?s0 5] =>
+      pose proof (start_append_save (cut ps 5) 5 f c 5 h s0 HPWc ltac:(lia) ltac:(lia) eq_refl) as Hsas end.
+    cbv zeta in Hsas. specialize (Hsas ltac:(cbn; lia)). destruct Hsas as [Hsr _].
+    unfold do_host_done, v_save_part, set_save_part.
+    match goal with |- context [s_use (do_append ?x h)] =>
+      replace (s_use (do_append x h)) with false
+        by (unfold do_append, ser_start_part; repeat match goal with |- context [if ?b then _ else _] => destruct b end; reflexivity) end.
+    cbn [w_r s_r]. rewrite Hsr. change (sepc 5 ++ h) with h. rewrite setp_cut by (auto; lia).
+    assert (HPW6 : PW (setp ps 5 h) 6) by (apply (setp_PW_tail ps n); auto; lia).
+    assert (Hemp : r_is_empty (set_host_type (conc (setp ps 5 h) 6 f c) ht) P_PATH_PREFIX = true).
+    { unfold r_is_empty, P_PATH_PREFIX, set_host_type, w_flags, E, conc. cbn [r_ends].
+      assert (Hl2 : length (setp ps 5 h) = 11%nat) by (destruct HPW6; assumption).
+      rewrite !nth_ends_of by lia. reflexivity. }
+    rewrite Hemp. cbn [negb].
+    unfold set_host_type, w_flags, conc. cbn [r_norm r_ends r_flags r_segs].
+    change (mk_repr (concat (setp ps 5 h)) (ends_of (setp ps 5 h) 6) (host_flags f ht) c) with (conc (setp ps 5 h) 6 (host_flags f ht) c).
+    apply norm_tail_conc. exact HPW6.
+  - (* text follows the host: through strp_ *)
+    destruct (N.ltb_spec (pre 6 ps) (len (concat ps))) as [_|E]; [|lia].
+    change (part_len (conc ps n f c) P_SCHEME_SEP) with (part_len (conc ps n f c) 1).
+    rewrite (part_len_sep ps n f c HPW ltac:(lia)), Hsep.
+    unfold do_host_done. ssimp. cbv beta iota zeta delta [P_HOST P_SCHEME_SEP].
+    rewrite (part_len_sep ps n f c HPW ltac:(lia)), Hsep. change (3 <? 3) with false. cbn [app].
+    unfold replace_part1.
+    destruct (replace_part_conc ps n f c 5 5 h 0 HPW ltac:(lia) ltac:(lia) ltac:(intro; lia)) as [Hrp _].
+    rewrite Hrp. fold (setp ps 5 h).
+    assert (HPWn : PW (setp ps 5 h) n).
+    { pose proof (setp_PW ps n 5 h HPW ltac:(lia)) as HP. replace (Nat.max n 6) with n in HP by lia. exact HP. }
+    assert (Hemp : r_is_empty (set_host_type (conc (setp ps 5 h) n f c) ht) P_PATH_PREFIX = true).
+    { change (set_host_type (conc (setp ps 5 h) n f c) ht) with (conc (setp ps 5 h) n (host_flags f ht) c).
+      destruct (Nat.ltb_spec 7 n).
+      - rewrite is_empty_conc by (auto; unfold P_PATH_PREFIX; lia). unfold P_PATH_PREFIX in *.
+        rewrite nth_setp by lia. cbn [Nat.eqb]. rewrite Hpp. reflexivity.
+      - unfold r_is_empty, P_PATH_PREFIX, E, conc. cbn [r_ends].
+        assert (Hl2 : length (setp ps 5 h) = 11%nat) by (destruct HPWn; assumption).
+        rewrite !nth_ends_of by lia. destruct (Nat.ltb_spec 7 n); [lia|]. destruct (7 <? n)%nat; destruct (6 <? n)%nat; cbn; try reflexivity.
+        all: apply N.leb_le; lia. }
+    change P_PATH_PREFIX with 7%nat in Hemp. rewrite Hemp. cbn [negb].
+    change (set_host_type (conc (setp ps 5 h) n f c) ht) with (conc (setp ps 5 h) n (host_flags f ht) c).
+    apply norm_tail_conc. exact HPWn.
+Qed.
+
+Lemma pieces_set_host u H : is_some (uhost u) = true ->
+  pieces (set_host u (Some H)) = setp (pieces u) P_HOST (host_serialize H).
+Proof.
+  intro Hh. destruct u as [sc us pw [h0|] po pa qu fr]; [|discriminate]. reflexivity.
+Qed.
+
+Lemma flags_set_host u H : is_some (uhost u) = true ->
+  flags_of (set_host u (Some H)) = host_flags (flags_of u) (host_type_num H).
+Proof.
+  intro Hh. destruct u as [sc us pw [h0|] po pa qu fr]; [|discriminate].
+  unfold flags_of, set_host, has_opaque_path, host_flags. cbn [uhost port query fragment path is_some].
+  destruct h0; destruct H; destruct po; destruct qu; destruct fr; destruct pa; reflexivity.
+Qed.
+
+(* host / hostname setter on a URL whose host is not null: hostStart, the serialized host, hostDone(type) *)
+Theorem host_setter_repr u file H : scheme u <> [] -> is_some (uhost u) = true ->
+  norm_tail (s_r (run true (init_sst (repr_of u) file)
+                    [OHostStart; OAppend (host_serialize H); OHostDone (host_type_num H)])) =
+  repr_of (set_host u (Some H)).
+Proof.
+  intros Hs Hh. rewrite repr_of_conc.
+  rewrite (setter_host_nonnull (pieces u) 11 (flags_of u) (segs_of u) file (host_serialize H) (host_type_num H)
+             (pieces_PW u Hs) ltac:(lia)).
+  - rewrite repr_of_conc, (pieces_set_host u H Hh), (flags_set_host u H Hh). reflexivity.
+  - unfold pieces. cbn [nth]. rewrite Hh. reflexivity.
+  - unfold pieces, P_PATH_PREFIX. cbn [nth]. unfold path_prefix. destruct (uhost u); [reflexivity|discriminate].
+Qed.
